@@ -8,7 +8,7 @@ Open Scope string_scope.
 
 Definition spec_operators : list (string * string) :=
   [("Add", "_bounded_add"); ("Sub", "operator.sub"); ("Mult", "_bounded_mul");
-   ("Div", "operator.truediv"); ("FloorDiv", "operator.floordiv"); ("Mod", "operator.mod");
+   ("Div", "operator.truediv"); ("FloorDiv", "operator.floordiv"); ("Mod", "_bounded_mod");
    ("Pow", "_bounded_pow"); ("USub", "operator.neg"); ("UAdd", "operator.pos")].
 
 Definition spec_comparisons : list (string * string) :=
